@@ -65,7 +65,7 @@ def oracle(o):
 def run(ctx):
     n = 40 if ctx.thorough() else 4
     proof_ok, detail = True, {}
-    ok, out = ctx.regen(["arith", "policy", "policymixed"])
+    ok, out = ctx.regen(["arith", "policy", "policymixed", "chunkpreds"])
     if not ok:
         proof_ok = False
         detail["translator"] = out[-2000:]
